@@ -199,6 +199,10 @@ def key_sig(k):
 def tick_of(v):
     return round(F(288) / F(v))          # Fraction.__round__ is ties-to-even, like float round
 
+def is_whole_ticks(v):
+    q = F(288) / F(v)
+    return abs(q - round(q)) < F(1, 10 ** 9)
+
 def denote_track(kind, payload, rep):
     """-> dict(ons, offs, names, sigs, program, flat) in absolute ticks; `flat` is the C17 view:
     [(ticks, frozenset of (pitch, ch, vel))] per entry, rests as empty sets"""
@@ -268,7 +272,7 @@ def rand_bar(rng, values, key=None, meter=None, rest_p=0.25, max_chord=4, vel_mi
     entries, total = [], F(0)
     for _ in range(rng.randint(0, 10)):
         v = rng.choice(values)
-        if whole_ticks and F(288) % F(v) != 0:
+        if whole_ticks and not is_whole_ticks(v):
             continue
         dur = 1 / F(v)
         dy = (F(v).denominator == 1 and (int(v) & (int(v) - 1)) == 0)
